@@ -72,7 +72,7 @@ THdr == /\ e.op = "hdr" /\ st' = FWriteHeader(FSetFlags(st, e.flags)) /\ State(s
 \* generous slack: the largest total the reserve may legitimately assume for OPT + TSIG
 Slack(m) == OptBase(m) + (IF m.opt # <<>> /\ m.pad > 0 THEN m.pad - 1 ELSE 0) + TsigSize(m)
 \* position after rendering the questions and the first k record sets without any limit
-PosAfter(m, nq, k) == Pos(FAddAll(FInit(m.id, m.flags, 65535),
+PosAfter(m, nq, k) == Pos(FAddAll(FInit(m.id, m.flags, 1000000000),
                                   SubSeq(MsgItems(m), 1, Len(m.q)) \o SubSeq(AllSets(m), 1, k)))
 TDone ==
     /\ e.op = "done" /\ UNCHANGED st
